@@ -217,6 +217,18 @@ LIB = {
         ("value-accessor-throws", "(() => { const x = {[Symbol.iterator]() { return {next() { return {get value() { throw new RangeError('v'); }, done: false}; }}; }}; try { return [...x].length; } catch (e) { return e.name; } })()"),
         ("result-proxy", "(() => { const x = {[Symbol.iterator]() { return {n: 0, next() { return new Proxy({value: 1, done: this.n++ > 1}, {}); }}; }}; let r = 0; for (const v of x) r++; return [r, [...x].length]; })()"),
         ("yield-star-done-truthy", "(() => { function* g() { const r = yield* {[Symbol.iterator]() { return {n: 0, next() { return {value: this.n, done: this.n++ < 2 ? '' : 'yes'}; }}; }}; return r; } return [...g()]; })()"),
+        ("for-of-closure", "(() => { const fs = []; for (const v of [1, 2, 3]) fs.push(() => v); return fs.map(f => f()); })()"),
+        ("for-of-closure-destructured", "(() => { const fs = []; for (const [a, b] of [[1, 2], [3, 4]]) { fs.push(() => a + b); } return fs.map(f => f()); })()"),
+        ("for-in-closure", "(() => { const fs = []; for (const k in {x: 1, y: 2}) { fs.push(() => k); } return fs.map(f => f()); })()"),
+        ("for-of-let-closure", "(() => { const fs = []; for (let v of [1, 2, 3]) { fs.push(() => v++); } return [fs.map(f => f()), fs.map(f => f())]; })()"),
+        ("for-of-closure-break-continue", "(() => { const fs = []; let x = 'o'; for (const v of [1, 2, 3, 4]) { if (v === 2) continue; if (v === 4) break; const x = v; fs.push(() => x + v); } return [fs.map(f => f()), x]; })()"),
+        ("for-of-closure-label", "(() => { const fs = []; outer: for (const a of [1, 2]) { for (const b of [10, 20]) { if (b === 20) continue outer; fs.push(() => a + b); } } return fs.map(f => f()); })()"),
+        ("for-await-closure", "typeof (async () => { const fs = []; for await (const v of [1, 2]) fs.push(() => v); return fs.map(f => f()); })"),
+        ("for-of-throw-closes", "(() => { let c = 0; const it = {[Symbol.iterator]() { return {next() { return {value: 1, done: false}; }, return() { c++; return {}; }}; }}; let x = 'o'; try { for (const v of it) { const x = v; throw new RangeError('t'); } } catch (e) { return [c, x, e.name]; } })()"),
+        ("keys-insertion-order", "[Object.keys({z: 1, y: 2, x: 3, w: 4, v: 5}), Object.keys(Object.assign({}, {q: 1, a: 2, m: 3})), Object.entries({c: 1, b: 2, a: 3}).map(e => e[0]), JSON.stringify({zz: 1, b: 2, aa: 3, c: 4})]"),
+        ("keys-after-delete", "(() => { const o = {a: 1, b: 2, c: 3, d: 4}; delete o.b; o.b = 5; o.e = 6; delete o.a; return Object.keys(o); })()"),
+        ("for-in-order", "(() => { const r = []; for (const k in {one: 1, two: 2, three: 3, four: 4}) r.push(k); return r; })()"),
+        ("class-member-order", "(() => { class A { z() {} y() {} x() {} static s3() {} static s1() {} } return [Object.getOwnPropertyNames(A.prototype), Object.keys(new (class { c = 1; b = 2; a = 3; d = 4; })())]; })()"),
         ("pad-non-ascii", "['x'.padStart(2, 'é'), 'x'.padEnd(4, 'éa'), 'é'.padStart(3, 'ßy')]"),
     ],
     "Scopes": [
